@@ -70,7 +70,36 @@ func mutate(rng *rand.Rand, doc map[string]any) string {
 		m, _ := vehicles[rng.Intn(len(vehicles))].(map[string]any)
 		return m
 	}
-	switch rng.Intn(28) {
+	switch rng.Intn(30) {
+	case 28, 29:
+		// an item without a name (the empty string is the stop data's "nothing on board": E32)
+		for _, st := range stops {
+			sm, _ := st.(map[string]any)
+			if sm == nil {
+				continue
+			}
+			if mi, ok := sm["mixing_items"].(map[string]any); ok {
+				for _, it := range mi {
+					if im, ok := it.(map[string]any); ok {
+						im["name"] = ""
+					}
+				}
+				// the partner stops of the unit carry the same name
+				for _, st2 := range stops {
+					if sm2, _ := st2.(map[string]any); sm2 != nil {
+						if mi2, ok := sm2["mixing_items"].(map[string]any); ok {
+							for _, it := range mi2 {
+								if im, ok := it.(map[string]any); ok {
+									im["name"] = ""
+								}
+							}
+						}
+					}
+				}
+				return "mix-empty-name"
+			}
+		}
+		return "none"
 	case 24, 25, 26, 27:
 		// the list form of duration_matrix: one (time-dependent) matrix per group of vehicle ids — as documented, then
 		// with a stale id, an uncovered vehicle, an id listed twice, or ids that merely match in number
